@@ -29,8 +29,9 @@ structure Sock where
   skipped : Nat := 0
   deriving DecidableEq, Repr
 
-def MAX_SKIPPED : Nat := 256
-def MAX_WAKEUPS : Nat := 4
+/-- both regenerated from xcm_tp.c on every run -/
+def MAX_SKIPPED : Nat := Generated.MAX_SKIPPED_CTL_CALLS
+def MAX_WAKEUPS : Nat := Generated.MAX_WAKEUPS_PER_CTL_CHECK
 
 /-- `consider_ctl` -/
 def considerCtl (s : Sock) (perm temp : Bool) : Sock × List Call :=
